@@ -613,6 +613,10 @@ pub enum Shape {
     VarEcho(u8),
     /// gen | while IFS= read -r l; do echo "$l"; done | sink   (the payload ends with a newline)
     ReadLoop,
+    /// the same loop reading the shell's standard input, a pipe that a writer process fills in
+    /// chunks of 1-7 bytes (a multi-byte character then arrives in pieces, and under the FIFO
+    /// schedule the reader has always drained the pipe before the next piece is written)
+    StdinReadLoop(u8),
 }
 
 #[derive(Clone, Debug, PartialEq, Eq, Hash, Serialize, Deserialize)]
@@ -655,7 +659,7 @@ fn cats(k: u8) -> String {
 fn check_data(c: &DataCase) -> Outcome {
     let n = c.n as usize;
     let mut tn = (c.trailing as usize).min(n);
-    if c.shape == Shape::ReadLoop {
+    if matches!(c.shape, Shape::ReadLoop | Shape::StdinReadLoop(_)) {
         // the loop drops an unterminated last line by design: the payload ends with a newline
         tn = tn.max(1).min(n);
     }
@@ -687,6 +691,11 @@ fn check_data(c: &DataCase) -> Outcome {
             Some(if payload.last() == Some(&b'\n') { payload.clone() } else { Vec::new() }),
             None,
         ),
+        Shape::StdinReadLoop(_) => (
+            "while IFS= read -r l; do echo \"$l\"; done | sink s\nsnap end\n".to_string(),
+            Some(if payload.last() == Some(&b'\n') { payload.clone() } else { Vec::new() }),
+            None,
+        ),
         Shape::VarEcho(k) => {
             let v = String::from_utf8(stripped.clone()).unwrap();
             let mut want = stripped.clone();
@@ -700,6 +709,15 @@ fn check_data(c: &DataCase) -> Outcome {
     s.chooser = c.chooser.clone();
     s.preempt = true;
     s.max_steps = 400_000;
+    if let Shape::StdinReadLoop(k) = c.shape {
+        if c.pre & 2 != 0 {
+            return Outcome::skip("standard input closed before a loop that reads it");
+        }
+        let size = (k % 7) as usize + 1;
+        s.stdin_pipe = Some(payload.chunks(size).map(|x| x.to_vec()).collect());
+        // the FIFO schedule runs the reader until it blocks before the writer's next chunk
+        s.preempt = !matches!(c.chooser, Chooser::Fifo);
+    }
     let r = vsys::run(&s);
     let ctx = |m: String| format!("{m} [n={n} trailing={tn} shape={:?} closed-before={:03b} schedule={:?}] stderr={:?}", c.shape, c.pre, c.chooser, r.stderr);
     if let Some(p) = &r.panic {
@@ -741,12 +759,12 @@ fn check_data(c: &DataCase) -> Outcome {
         Shape::Subst(k) => 1 + k as usize,
         Shape::Nested => 2,
         Shape::HereDoc => 1,
-        Shape::ReadLoop => 3,
+        Shape::ReadLoop | Shape::StdinReadLoop(_) => 3,
     };
     let nonfifo = r.log.choices.iter().any(|c| c.1 != 0);
     Outcome::pass((n > 512 || stages >= 2) && nonfifo)
         .class(match n { 0 => "n=0", 1..=511 => "n<PIPE_BUF", 512..=1024 => "PIPE_BUF<=n<=PIPE_SIZE", _ => "n>PIPE_SIZE" })
-        .class(match c.shape { Shape::Pipe(_) => "pipe", Shape::Subst(_) => "subst", Shape::Nested => "nested-subst", Shape::HereDoc => "heredoc", Shape::VarEcho(_) => "var-echo", Shape::ReadLoop => "read-loop" })
+        .class(match c.shape { Shape::Pipe(_) => "pipe", Shape::Subst(_) => "subst", Shape::Nested => "nested-subst", Shape::HereDoc => "heredoc", Shape::VarEcho(_) => "var-echo", Shape::ReadLoop => "read-loop", Shape::StdinReadLoop(_) => "read-loop-on-chunk-fed-standard-input" })
         .class_if(c.ws, "white-space-before-the-trailing-newlines")
         .class_if(tn > 0, "trailing-newlines")
         .class_if(nonfifo, "non-fifo-schedule")
@@ -938,7 +956,7 @@ fn arb_here_case() -> impl Strategy<Value = HereCase> {
 const SIZES: [u16; 19] = [0, 1, 2, 511, 512, 513, 1023, 1024, 1025, 1535, 1536, 2047, 2048, 2049, 3071, 3072, 4095, 4096, 4097];
 
 fn shapes() -> Vec<Shape> {
-    vec![Shape::Pipe(0), Shape::Pipe(1), Shape::Pipe(3), Shape::Subst(0), Shape::Subst(2), Shape::Nested, Shape::HereDoc, Shape::VarEcho(1), Shape::ReadLoop]
+    vec![Shape::Pipe(0), Shape::Pipe(1), Shape::Pipe(3), Shape::Subst(0), Shape::Subst(2), Shape::Nested, Shape::HereDoc, Shape::VarEcho(1), Shape::ReadLoop, Shape::StdinReadLoop(0), Shape::StdinReadLoop(1), Shape::StdinReadLoop(4)]
 }
 
 pub fn run14(ctx: &Ctx, st: &mut Stats) {
